@@ -245,6 +245,7 @@ static std::string run_sdk(const Cfg &cfg, const std::string &temps, bool with_s
     else
       return "bad-op";
   }
+  size_t nrec = 0;  // attribute-less records so far in this case: the overload used alternates with it
   for (auto &op : ops)
   {
     if (op[0] == "rec")
@@ -252,10 +253,18 @@ static std::string run_sdk(const Cfg &cfg, const std::string &temps, bool with_s
       T v;
       PARSE(op[2], v);
       opentelemetry::context::Context ctx{};
-      if (op[1] == "-")
+      // the overloads with and without attributes must record the same: an empty attribute list is the attribute-less call
+      if (op[1] == "-" && (nrec++ % 2 == 0))
       {
         if (is_long) hl->Record(static_cast<uint64_t>(v), ctx);
         else hd->Record(static_cast<double>(v), ctx);
+      }
+      else if (op[1] == "-")
+      {
+        std::map<std::string, int64_t> none;
+        opentelemetry::common::KeyValueIterableView<std::map<std::string, int64_t>> view(none);
+        if (is_long) hl->Record(static_cast<uint64_t>(v), view, ctx);
+        else hd->Record(static_cast<double>(v), view, ctx);
       }
       else
       {
